@@ -136,12 +136,31 @@ def run(P, R, tier):
             'pack: recorded bounds are not computed from the rows that are written for that partition', construct='total_bounds[col] = part_df[col].total_bounds')
     # collected in partition order
     order_ok = False
+    nloops = 0
     for lp in astq.own_nodes(w2, ast.For):
-        if isinstance(lp.iter, ast.Name) and any('total_bounds' in norm(x) for x in lp.body):
-            d = astq.all_defs(w2, lp.iter.id)
+        if any('total_bounds' in norm(x) for x in lp.body) and ('write_info' in norm(lp.iter) or isinstance(lp.iter, ast.Name)):
+            nloops += 1
             order_ok = not any(k in norm(lp.iter) for k in ('sorted', 'reversed', 'set('))
             R.check(order_ok, 'C12.a', w2, lp, 'per-partition bounds are collected in partition order', 'per-partition bounds are collected in a different order than the partitions')
-    R.floor('C12.a', 'bounds collection loops', int(order_ok), 1)
+            # rows are numbered by POSITION among the parts that were written (the part files are renumbered contiguously behind empty partitions): appended to a list, or
+            # keyed by an enumerate() counter of the written parts -- never by the output-partition number a part was computed for (that numbering has gaps)
+            for st in ast.walk(lp):
+                if isinstance(st, ast.Assign) and isinstance(st.targets[0], ast.Subscript) and not isinstance(st.targets[0].slice, ast.Slice):
+                    key = st.targets[0].slice
+                    ksrc = astq.sources(w2, key) if isinstance(key, ast.AST) else set()
+                    tgt_names = {n_.id for n_ in ast.walk(lp.target) if isinstance(n_, ast.Name)}
+                    from_loop = ksrc & tgt_names
+                    if not from_loop or not isinstance(st.value, ast.Call):
+                        continue
+                    it_src = norm(lp.iter)
+                    numbered = any(n_ in it_src for n_ in ('out_partitions', 'written_partitions')) or any('out_partition' in n_ for n_ in from_loop)
+                    counter = it_src.startswith('enumerate(')
+                    if 'total_bounds' in norm(st) or 'Series(' in norm(st.value):
+                        R.check(counter and not numbered or not numbered and not from_loop - {'col', 'series_name', 'name'}, 'C12.a', w2, st,
+                                'bounds rows are numbered by position among the written parts',
+                                f'`{norm(st)[:90]}` keys the bounds of a part by the output-partition number it was computed for: empty output partitions leave gaps in that numbering while the '
+                                'part files are renumbered contiguously, so bounds rows and partitions no longer correspond', construct='bounds rows numbered like the part files')
+    R.floor('C12.a', 'bounds collection loops', nloops, 1)
 
     # ---------------------------------------------------------------- C12.b order normalisation
     found = False
